@@ -20,12 +20,25 @@ Round-2 probes (helpers in harness/t6_c19.py), all evaluated on the real library
    negative values and sign=True; swapN = swap(., N) = byte reversal; auto-sized pack for every bit length 0..130.
    The unmodified library's unpack() (hence swap()) rejects every explicit size that is not a multiple of 8: counted as a feature
    (`unpack:explicit-size-not-multiple-of-8:rejected-by-the-library`), the library used to reject them in unpack/swap (found by this probe, repaired: fixed F46); they are checked like the others.
+
+Round-9 probe (harness/v9_c19.py): both call styles of dumpstruct on every data length.  Generated structures whose encoding has a chosen
+length - 0 (struct S {}; only zero-length arrays; a lone x[EOF] array; fixed members plus an x[EOF] tail left with no bytes), 1, 2, 15, 16, 17,
+31, 32, 33, 48 on every seed, then random lengths - from random members (integers of 1..16 bytes, floats, char / wchar and their arrays, enums,
+nested / anonymous / empty structures, bit-fields, pointer, void, uleb128, null-terminated and counted arrays, unions) x endianness spelling x
+compiled / interpreted x packed / aligned.  The same bytes are dumped through dumpstruct(instance) - the instance from S(bytes), S(stream),
+S.reads, S.read(stream), obj= keyword, and built from the field values through the API - and through dumpstruct(S, data) with bytes, bytearray,
+memoryview, data= / obj= keywords and everything positional, colour off and on, output "string" and "print" (captured), plus the calls with
+defaults only.  Oracle: every call succeeds; without the escape sequences the text is a hex dump that reads back as exactly the bytes (no line
+for no bytes) followed by "struct S:" and every member once, in order, with its value read back; colour off = no escape character, colour on =
+the same text plus colour codes; every style / data type / convention / mode gives the same text; dumpstruct(S) / (S, None) raise ValueError.
+Both styles also go to the model.  Excluded (unmodified library, reported): the API-built instance with colour on raises AttributeError
+('_sizes') - counted as feature `v9:forms:api-instance:colour:AttributeError-_sizes`, judged as soon as it returns a text.
 """
 from __future__ import annotations
 
 import re
 
-from .. import common, impl, t6_c19
+from .. import common, impl, t6_c19, v9_c19
 from ..common import A, Case, Result, mkrng, parse_sexp, run_driver, sx
 
 NORMAL = "\033[1;0m"
@@ -82,8 +95,11 @@ def run(env) -> Result:
                 "strings, shorter/longer than the data) x offsets x prefixes; pack/unpack/swap: boundary and random integers x widths 8..128 x six "
                 "endianness spellings; dumpstruct over generated structures; hexdump / dumpstruct parameter sweep (adversarial prefixes, offsets, "
                 "escape-sequence and free-form palettes, data types, output modes, call forms); pack/unpack over every explicit width 1..130 x "
-                "boundary values x eight endianness spellings. distinct = by full argument tuple; non-trivial = data longer than one "
-                "byte / width > 8")
+                "boundary values x eight endianness spellings; dumpstruct call styles (v9): generated structures of every encoded length "
+                "(0 - empty struct, zero-length arrays, x[EOF] with nothing left - 1, 2, 15, 16, 17, 31, 32, 33, 48, random) x endianness "
+                "spelling x compiled/interpreted x packed/aligned, dumped as instance (class call, stream, reads, read, API-built) and as "
+                "(type, data) with bytes / bytearray / memoryview, positional / keyword, colour off/on, string/print, defaults; no data -> "
+                "ValueError. distinct = by full argument tuple; non-trivial = data longer than one byte / width > 8")
     utils = __import__("dissect.cstruct.utils", fromlist=["x"]) if False else None
     dc = impl.dc()
     from dissect.cstruct import utils as U
@@ -276,6 +292,8 @@ def run(env) -> Result:
     t6_c19.hexdump_params(env, res, U, viol, lines, metas)
     t6_c19.dumpstruct_params(env, res, U, dc, viol, lines, metas)
     t6_c19.pack_widths(env, res, U, viol, lines, metas)
+    # ---- round 9 (v9): both call styles of dumpstruct x data type x passing convention x colour x output mode on every data length (0 included)
+    v9_c19.dumpstruct_forms(env, res, U, dc, viol, lines, metas)
 
     # ---- model correspondence
     answers = run_driver(lines) if env["driver_ok"] else [None] * len(lines)
